@@ -1753,6 +1753,7 @@ class UWG(object):
         roadMat, newthickness = UWG._procmat(
             self.road, self.MAXTHICKNESS, self.MINTHICKNESS)
 
+        self._soilindex1 = None
         for i in range(self.nSoil):
             # if soil depth is greater then the thickness of the road
             # we add new slices of soil at max thickness until road is greater or equal
@@ -1766,6 +1767,10 @@ class UWG(object):
                     roadMat.append(self.SOIL)
                 self._soilindex1 = i
                 break
+
+        if self._soilindex1 is None and self.nSoil >= 3:
+            raise Exception('The road ({} m) is deeper than the deepest ground temperature '
+                            'depth of the epw file.'.format(sum(newthickness)))
 
         self.road = Element(
             self.road.albedo, self.road.emissivity, newthickness, roadMat,
